@@ -102,6 +102,26 @@ Definition move_fits (g : game) (m : move) : bool :=
 (* C02: the move does not capture a king (true of every generated move when the side not to move is not in check) *)
 Definition nkc_b (g : game) (m : move) : bool :=
   negb (mcap m && negb (mep m) && N.testbit (bb g (if white g then BK else WK)) (mto m)).
+(* C06 / C02 / C04: the executable form of the position invariant proved to hold at every position a search examines
+   (Proofs/LegalInv.v: legal_inv; Proofs/LegalInvB.v: legal_inv_b g = true -> legal_inv g).  The judge evaluates it on every
+   stream position, so the hypothesis of those theorems is checked for every root that is exercised. *)
+Definition PIECES12 : list N := [0;1;2;3;4;5;6;7;8;9;10;11].
+Definition legal_inv_b (g : game) : bool :=
+  let b := bb g in let w := white g in let c := castling g in
+  Nat.eqb (length (bbs g)) 12 &&
+  forallb (fun p => forallb (fun q => (p =? q) || (N.land (b p) (b q) =? 0)) PIECES12) PIECES12 &&
+  (wocc g =? N.lor (b 0) (N.lor (b 1) (N.lor (b 2) (N.lor (b 3) (N.lor (b 4) (b 5)))))) &&
+  (bocc g =? N.lor (b 6) (N.lor (b 7) (N.lor (b 8) (N.lor (b 9) (N.lor (b 10) (b 11)))))) &&
+  (aocc g =? N.lor (wocc g) (bocc g)) &&
+  (negb (N.testbit c 0) || (N.testbit (b WK) 60 && N.testbit (b WR) 63)) &&
+  (negb (N.testbit c 1) || (N.testbit (b WK) 60 && N.testbit (b WR) 56)) &&
+  (negb (N.testbit c 2) || (N.testbit (b BK) 4 && N.testbit (b BR) 7)) &&
+  (negb (N.testbit c 3) || (N.testbit (b BK) 4 && N.testbit (b BR) 0)) &&
+  ((ep g =? NOSQ) || (negb (N.testbit (aocc g) (ep g)) && (if w then N.testbit (b BP) (ep g + 8) else N.testbit (b WP) (ep g - 8)) && (ep g <? 56) && (8 <=? ep g))) &&
+  Nat.eqb (length (bits_of (b WK))) 1 && Nat.eqb (length (bits_of (b BK))) 1 &&
+  forallb (fun p => b p <? 2 ^ 64) PIECES12 && (b BP <? 2 ^ 56) && (N.land (b WP) 255 =? 0) &&
+  negb (in_check_raw (bbs g) (aocc g) (negb w)) &&
+  (hash g =? make_zobrist_hash g).
 Local Close Scope N_scope.
 
 (* the formal reading of "legal position" for a bitboard position: consistent redundant sets + the rules-level wf *)
